@@ -17,6 +17,7 @@ func init() {
 			"ERR-LOOP: every consumer loop of the decoded stream asks Err() before reporting success",
 			"the merge-iterator rules of C04 (records of several decoded streams are handed on without loss) and ERR-CHAIN of the metric wrappers (a decode fault travels up through every Err())",
 			"PV-ONCE groupEntries (decoded records are kept on the way out)",
+			"ERR-PROP frame size: no failure exit of the frame decoder depends on the frame's size",
 		},
 		NotDecided: []string{"that io.ReadFull/io.CopyN/time.Parse meet their documented contracts", "nanosecond exactness of pcommon.NewTimestampFromTime", "frames larger than memory"},
 		Rules: func(r *Run) {
@@ -27,6 +28,7 @@ func init() {
 			ruleMergeIter(r)                                         // records of several decoded streams are handed on without loss: the merge refills from the stream it popped
 			ruleOwnWrapScoped(r, []string{metricPkg, enginePkg}, 2)  // a decode fault travels up through every wrapper's Err()
 			ruleGroupEntries(r)                                      // decoded records are not lost on the way out: every entry of a stream is kept
+			ruleFrameSizeNotJudged(r)
 		},
 	})
 }
